@@ -510,9 +510,128 @@ class Inliner:
                     n.end_lineno = getattr(call, "end_lineno", call.lineno)
         return body
 
+    # ---- expression-level inlining of straight-line helpers: Assign* + Return ----------------------------------
+    def expr_value(self, call: ast.Call, d: int, stack):
+        """the value of `call` as an expression when the callee is `x = ..; y = ..; return E` (params and locals substituted)"""
+        r = self.lookup(call)
+        if r is None or d <= 0:
+            return None
+        callee, skip = r[0], r[1]
+        if callee.name in stack or callee.args.vararg or callee.args.kwarg or _contains(callee, (ast.Yield, ast.YieldFrom, ast.Await)):
+            return None
+        body = real_body(callee)
+        if not body or not isinstance(body[-1], ast.Return) or body[-1].value is None:
+            return None
+        b = norm.bind_call(callee, call, skip)
+        if b is None:
+            return None
+        env: dict[str, ast.expr] = {p: copy.deepcopy(a) for p, a in b.items()}
+        if skip and isinstance(call.func, ast.Attribute):
+            selfname = (callee.args.posonlyargs + callee.args.args)[0].arg
+            if not (isinstance(call.func.value, ast.Name) and call.func.value.id == selfname):
+                env[selfname] = copy.deepcopy(call.func.value)
+        for st in body[:-1]:
+            if isinstance(st, ast.Expr) and isinstance(st.value, ast.Constant):
+                continue
+            if isinstance(st, ast.Assert):
+                continue
+            if isinstance(st, (ast.Assign, ast.AnnAssign)) and st.value is not None:
+                tg = st.targets[0] if isinstance(st, ast.Assign) and len(st.targets) == 1 else (st.target if isinstance(st, ast.AnnAssign) else None)
+                v = norm._Subst(dict(env)).visit(copy.deepcopy(st.value))
+                if isinstance(tg, ast.Name):
+                    env[tg.id] = v
+                    continue
+                if isinstance(tg, ast.Tuple) and all(isinstance(e, ast.Name) for e in tg.elts):
+                    if isinstance(v, ast.Tuple) and len(v.elts) == len(tg.elts):
+                        for e, x in zip(tg.elts, v.elts):
+                            env[e.id] = x
+                    else:
+                        for i, e in enumerate(tg.elts):
+                            env[e.id] = ast.Subscript(value=copy.deepcopy(v), slice=ast.Constant(i), ctx=ast.Load())
+                    continue
+            return None
+        val = norm._Subst(dict(env)).visit(copy.deepcopy(body[-1].value))
+        val = self.inline_exprs(val, d - 1, stack + (callee.name,))
+        for n in ast.walk(val):
+            if hasattr(n, "lineno"):
+                n.lineno = call.lineno
+        return val
+
+    def inline_exprs(self, node, d, stack):
+        me = self
+
+        class X(ast.NodeTransformer):
+            def visit_Call(self, n):
+                self.generic_visit(n)
+                v = me.expr_value(n, d, stack)
+                return v if v is not None else n
+
+            def visit_FunctionDef(self, n):
+                return n
+        return X().visit(node)
+
+    def hoist(self, s, d, stack):
+        """calls of (non straight-line) helpers nested in an unconditional position of statement s are bound to
+        temporaries first, so that statement-level inlining applies:  f(g(x))  ->  t = g(x); f(t)"""
+        pre = []
+        me = self
+
+        def top(e):
+            return e is getattr(s, "value", None)
+
+        class H(ast.NodeTransformer):
+            def visit_Call(self, n):
+                self.generic_visit(n)
+                if top(n) or me.lookup(n) is None or d <= 0:
+                    return n
+                me.counter += 1
+                nm = f"t_{call_tag(n)}{me.counter}"
+                pre.append(ast.copy_location(ast.Assign(targets=[ast.Name(id=nm, ctx=ast.Store())], value=n), s))
+                return ast.copy_location(ast.Name(id=nm, ctx=ast.Load()), n)
+
+            # conditionally / repeatedly evaluated positions are left alone
+            def visit_IfExp(self, n):
+                n.test = self.visit(n.test)
+                return n
+
+            def visit_BoolOp(self, n):
+                n.values[0] = self.visit(n.values[0])
+                return n
+
+            def visit_Lambda(self, n):
+                return n
+
+            def _comp(self, n):
+                n.generators[0].iter = self.visit(n.generators[0].iter)
+                return n
+            visit_ListComp = visit_SetComp = visit_DictComp = visit_GeneratorExp = _comp
+
+        def call_tag(n):
+            f = n.func
+            return (f.attr if isinstance(f, ast.Attribute) else getattr(f, "id", "f")).strip("_")
+        if isinstance(s, (ast.Expr, ast.Assign, ast.AnnAssign, ast.Return, ast.AugAssign)) and getattr(s, "value", None) is not None:
+            s.value = H().visit(s.value)
+        elif isinstance(s, (ast.If, ast.While)) and isinstance(s, ast.If):
+            s.test = H().visit(s.test)
+        return pre
+
     def rec(self, stmts, d, stack):
         out = []
         for s in stmts:
+            if isinstance(s, (ast.FunctionDef, ast.ClassDef, ast.AsyncFunctionDef)):
+                out.append(s)
+                continue
+            # 1 straight-line helpers become expressions, wherever they are called
+            if not isinstance(s, (ast.Try, ast.With, ast.For, ast.While, ast.If, ast.Match)):
+                s = self.inline_exprs(s, d, stack)
+            else:
+                for fld in ("test", "iter", "subject"):
+                    if hasattr(s, fld):
+                        setattr(s, fld, self.inline_exprs(getattr(s, fld), d, stack))
+            # 2 other helpers nested in the statement are hoisted into temporaries
+            pre = self.hoist(s, d, stack)
+            if pre:
+                out += self.rec(pre, d, stack)
             body = None
             if isinstance(s, ast.Expr) and isinstance(s.value, ast.Call):
                 body = self.expand(s.value, "expr", None, s, d, stack)
@@ -619,6 +738,15 @@ class _ExprNorm(ast.NodeTransformer):
                 return [(None, x)]
             kv = parts(node.left) + parts(node.right)
             return ast.copy_location(ast.Dict(keys=[k for k, _ in kv], values=[v for _, v in kv]), node)
+        return node
+
+    def visit_Subscript(self, node):
+        self.generic_visit(node)
+        # m[a if c else b] -> m[a] if c else m[b]   (m a plain reference, load context)
+        if isinstance(node.slice, ast.IfExp) and isinstance(node.ctx, ast.Load) and norm.is_reference(node.value):
+            a = ast.Subscript(value=copy.deepcopy(node.value), slice=node.slice.body, ctx=ast.Load())
+            b = ast.Subscript(value=copy.deepcopy(node.value), slice=node.slice.orelse, ctx=ast.Load())
+            return ast.copy_location(ast.IfExp(test=node.slice.test, body=a, orelse=b), node)
         return node
 
     def visit_List(self, node):
@@ -840,15 +968,19 @@ class Canon:
             body = lower_matches(body, self._match_args(module))
             return lift_walrus(lift_ifexp(body))
 
+        local_types = self._local_types(real_body(fn), module, cls)
+
         def lookup(call):
             f = call.func
-            if isinstance(f, ast.Attribute) and isinstance(f.value, ast.Name) and f.value.id == "self" and cls is not None:
+            if isinstance(f, ast.Attribute) and isinstance(f.value, ast.Name) and (
+                    (f.value.id == "self" and cls is not None) or f.value.id in local_types):
+                k = cls if f.value.id == "self" else local_types[f.value.id]
                 name = f.attr
                 if name in keep:
                     return None
-                if not (name in inline or (name.startswith("_") and not name.startswith("__") and f"{cls.name}.{name}" not in known and name not in known)):
+                if not (name in inline or (name.startswith("_") and not name.startswith("__") and f"{k.name}.{name}" not in known and name not in known)):
                     return None
-                _, m = cls.find_method(name)
+                _, m = k.find_method(name)
                 if m is None:
                     return None
                 if any(u(d) in ("property", "staticmethod", "classmethod", "cached_property") for d in m.decorator_list):
@@ -890,6 +1022,8 @@ class Canon:
                     f = u(n.value.func)
                     if f in ("cls.__new__", "cls") and cls is not None:
                         out[n.targets[0].id] = cls
+                    elif isinstance(n.value.func, ast.Attribute) and n.value.func.attr == "__new__" and isinstance(module.resolve(n.value.func.value), Class):
+                        out[n.targets[0].id] = module.resolve(n.value.func.value)
                     else:
                         r = module.resolve(n.value.func) if isinstance(n.value.func, (ast.Name, ast.Attribute)) else None
                         if isinstance(r, Class):
@@ -998,6 +1132,8 @@ class Canon:
         b = _generator_to_genexp(b)
         b = expr_norm(b)
         if subst:
+            b = norm.forward_subst(b, pure_calls=_PURE_EXT)
+            b = _drop_dead_temps(b)
             b = subst_single_use(b)
             b = norm.forward_subst(b, pure_calls=_PURE_EXT)
             b = _drop_dead_temps(b)
